@@ -13,11 +13,22 @@ Expected(k, j) ==
   CASE k.op = "less" -> (IF Less(k.pre[1], LastVal(k, j)) THEN 1 ELSE 0)
     [] k.op \in {"inc", "nat1", "nat2", "nat3"} -> Sum(k.S, Args(k, j))
     [] k.op = "set2" -> [m |-> SumOrMax(k.S, Args(k, j)), same |-> TRUE]
+\* complete 8-bit ranges travel as plain integers and are evaluated on TLC's integers (MC_SafeMath: same functions)
+SmallArgs(k, j) == k.pre \o <<k.lo + j - 1>>
+SmallExpected(k, j) ==
+  CASE k.op = "less" -> (IF k.pre[1] < k.lo + j - 1 THEN 1 ELSE 0)
+    [] k.op \in {"inc", "nat1", "nat2", "nat3"} -> SmallSum(k.S, SmallArgs(k, j))
+    [] k.op = "set2" -> SmallSumOrMax(k.S, SmallArgs(k, j))
+SmallOk(k) == /\ k.n \in {256} /\ Len(k.T) = Len(k.pre) + 1
+              /\ (k.op = "set2" => k.S \in {"i8", "u8", "i16", "u16"})
+              /\ \A j \in 1..k.n : /\ \A p \in 1..Len(k.T) : SmallIn(k.T[p], SmallArgs(k, j)[p])
+                                   /\ k.out[j] = SmallExpected(k, j)
+WideOk(k) == \A j \in 1..NLast(k) : TypesOk(k, j) /\ k.out[j] = Expected(k, j)
 POk(k) == /\ ~k.ub
           /\ k.op \in {"less", "inc", "nat1", "nat2", "nat3", "set2"}
           /\ Len(k.out) = NLast(k)
           /\ (k.op = "inc" => k.S = k.T[1])
-          /\ \A j \in 1..NLast(k) : TypesOk(k, j) /\ k.out[j] = Expected(k, j)
+          /\ IF HasLo(k) THEN SmallOk(k) ELSE WideOk(k)
 CaseOk == i > 0 => POk(Case)
 \* the code has no behaviour beyond the statement: no separate I-layer
 ImplOk == TRUE
